@@ -99,4 +99,80 @@ theorem neighbours_tie {env : ModelEnv} (hE : EqId env) (s : H) (a : ARef) (f : 
     unfold nbStep
     split <;> split <;> simp
 
+/-! ### attackers -/
+
+/-- closed form of the translated `add_attacker` -/
+def addAttackerH (h : H) (t : TRef) (id : Option Int) : H :=
+  { h with
+    t := fun x => if x = t then
+        { h.t t with id := some (id.getD h.next_id)
+                     name := if truthyOptStr (h.t t).name then (h.t t).name
+                             else some ("Attacker:" ++ toString (id.getD h.next_id)) }
+      else h.t x
+    next_id := max (id.getD h.next_id + 1) h.next_id
+    attackers := h.attackers ++ [t] }
+
+theorem add_attacker_run (h : H) (env : ModelEnv) (t : TRef) (id : Option Int) :
+    model_add_attacker h env t id = addAttackerH h t id := by
+  unfold model_add_attacker addAttackerH
+  cases id <;> cases hn : truthyOptStr (h.t t).name <;>
+    simp [Id.run, pure, H.setT, hn, optIntGet, strOptInt] <;>
+    (try (funext x; by_cases hx : x = t <;> simp [hx]))
+
+/-- `add_attacker` on a new `AttackerAttachment(name=…)` (no entry points yet): the model's `addAttacker` -/
+theorem add_attacker_tie (s : H) (env : ModelEnv) (o : PyAtt) (ho : o.entry_points = []) (id : Option Int) :
+    abs (model_add_attacker (newAttObj s o) env s.tfresh id) = MS.addAttacker (abs s) o.name id := by
+  rw [add_attacker_run]
+  unfold addAttackerH MS.addAttacker newAttObj abs
+  simp only [MS.St.mk.injEq, true_and, and_true, if_pos]
+  funext x
+  by_cases hx : x = s.tfresh
+  · subst hx
+    cases hn : o.name with
+    | none => simp [absAtt, truthyOptStr, attrInt, attrStr, ho]
+    | some n => by_cases he : n.isEmpty <;> simp [absAtt, truthyOptStr, attrInt, attrStr, ho, he]
+  · simp [hx, absAtt, epVal]
+
+/-- the attacker added is in the model with an id -/
+theorem add_attacker_id (h : H) (env : ModelEnv) (t : TRef) (id : Option Int) :
+    ((model_add_attacker h env t id).t t).id = some (id.getD h.next_id) := by
+  rw [add_attacker_run]; simp [addAttackerH]
+
+/-! ### `remove_attacker`: `AttackerAttachment` is compared by value -/
+
+theorem eraseP_eq_erase {l : List Nat} {p : Nat → Bool} {t : Nat} (hp : p t = true)
+    (h : ∀ u ∈ l, p u = true → u = t) : l.eraseP p = l.erase t := by
+  induction l with
+  | nil => rfl
+  | cons x xs ih =>
+    by_cases hx : p x = true
+    · have := h x (List.mem_cons_self ..) hx
+      subst this
+      rw [List.eraseP_cons_of_pos hx, List.erase_cons_head]
+    · have hne : x ≠ t := fun e => hx (e ▸ hp)
+      rw [List.eraseP_cons_of_neg hx, List.erase_cons_tail (by simpa using hne),
+        ih (fun u hu => h u (List.mem_cons_of_mem _ hu))]
+
+/-- `remove_attacker` removes the first attacker of the model that is *equal by value* (id, name, entry points)
+to the argument.  It is the model's `removeAttacker` when no other attacker of the model is equal to it
+(`hTwin`); `PropsGen/C05.lean` shows that the hypothesis is needed. -/
+theorem remove_attacker_tie_partial (s : H) (env : ModelEnv) (t : TRef)
+    (hTwin : ∀ u ∈ s.attackers, eqAtt env s u t = true → u = t) :
+    absR (model_remove_attacker s env t) = MS.removeAttacker (abs s) t := by
+  have hself : eqAtt env s t t = true := by simp [eqAtt]
+  have hin : pyIn (eqAtt env s) s.attackers t = s.attackers.contains t := by
+    unfold pyIn
+    apply Bool.eq_iff_iff.2
+    rw [List.any_eq_true, List.contains_iff_mem]
+    exact ⟨fun ⟨u, hu, he⟩ => hTwin u hu he ▸ hu, fun hm => ⟨t, hm, hself⟩⟩
+  simp only [model_remove_attacker, MS.removeAttacker, pyRemoveBy, hin, bind, Except.bind, pure, Except.pure]
+  by_cases hc : s.attackers.contains t = true
+  · have hc' : (abs s).attackers.contains t = true := hc
+    simp only [hc, hc', if_true, Bool.not_true, Bool.false_eq_true, if_false]
+    rw [eraseP_eq_erase (p := fun y => eqAtt env s y t) hself hTwin]
+    rfl
+  · have hc' : ¬ (abs s).attackers.contains t = true := hc
+    simp only [hc, hc', if_false, Bool.not_eq_true]
+    simp [hc', errAbs]
+
 end MalVerif.PyM.Tie
